@@ -243,6 +243,8 @@ def finish(rep):
         "obligations": int(rep.stats.get("obligations", 0)),
         "discharged": int(rep.stats.get("discharged", 0)),
         "violated_obligations": int(rep.stats.get("violated", 0)),
+        "discharged_by_term_identity": int(rep.stats.get("discharged_by_term_identity", 0)),
+        "discharged_by_solver_query": int(rep.stats.get("discharged", 0)) - int(rep.stats.get("discharged_by_term_identity", 0)),
         "unknown": unknown,
         "solver_s": round(rep.stats.get("solver_s", 0.0), 2),
         "paths": paths,
